@@ -5,7 +5,10 @@
 (* and 65535 in peer-supplied packages, commitment vectors of every length  *)
 (* 0..t+1 (at part2 and, late, at part3), duplicated and single key         *)
 (* packages, helper lists that contain the repaired participant, identifier *)
-(* lists that are empty, too short, duplicated or unknown.  The model says  *)
+(* lists that are empty, too short, duplicated or unknown; two faults in    *)
+(* one message (a commitment vector of length 0..t together with a zero     *)
+(* share, in a dealer share and in a late round-one/round-two pair).        *)
+(* The model says  *)
 (* what each call returns (a value or an error -- never anything else); the *)
 (* replay and the recorded traces run under catch_unwind with overflow      *)
 (* checks and debug assertions on.                                          *)
@@ -56,7 +59,10 @@ Choose ==
        \/ /\ pr = "vshare"
           /\ \E id \in {2, 6}, vsid \in Ids : sc' = [probe |-> pr, id |-> id, vsid |-> vsid]
        \/ /\ pr = "dkg_lens"
-          /\ \E w \in {"empty", "trunc", "extend"}, late \in BOOLEAN : sc' = [probe |-> pr, w |-> w, late |-> late]
+          /\ \E w \in {"empty", "trunc", "extend"}, late \in BOOLEAN, z \in BOOLEAN :
+               (z => late) /\ sc' = [probe |-> pr, w |-> w, late |-> late, zero |-> z]
+       \/ /\ pr = "ss_double"
+          /\ \E nt \in 0..2, z \in BOOLEAN : sc' = [probe |-> pr, nt |-> nt, zero |-> z]
        \/ /\ pr = "recon"
           /\ \E ks \in {<<2>>, <<2, 2>>, <<2, 3, 2>>, <<2, 3, 5>>, << >>}, m \in {0, 1, 65535, 2} : sc' = [probe |-> pr, ks |-> ks, m |-> m]
        \/ /\ pr = "repair"
@@ -68,6 +74,8 @@ Choose ==
 
 PR == sc.probe
 Done == pc' = <<"done", 0>>
+\* one more coefficient dropped from a share's commitment, or a plain copy
+SsStep(out, src, trunc) == IF trunc THEN ActTamperSs(out, src, "trunc", 0, 0) ELSE ActTamperSs(out, src, "share", 0, 0)
 
 P1 ==
   /\ pc[1] = "p1"
@@ -79,6 +87,7 @@ P1 ==
        [] PR = "recon"    -> ActLieMin(<<"kpL", 2>>, <<"kp", 2>>, sc.m) /\ pc' = <<"p2", 0>>
        [] PR = "repair"   -> (\E ds \in SeqsOf({4}, RepairDraws(sc.hs, env[<<"kp", 2>>])) : ActRepair1("d", sc.hs, <<"kp", 2>>, ds, sc.x)) /\ Done
        [] PR = "refresh"  -> ActLieMin(<<"pkpL", 0>>, PKP, sc.m) /\ pc' = <<"p2", 0>>
+       [] PR = "ss_double" -> SsStep(<<"ssA", 2>>, <<"ss", 2>>, sc.nt >= 1) /\ pc' = <<"p2", 0>>
 
 P2 ==
   /\ pc[1] = "p2"
@@ -91,7 +100,10 @@ P2 ==
                [] sc.v = "full"    -> ActAggregate(<<"sig", 0>>, PKG, AllShares, <<"pkpL", 0>>, sc.mode))
             /\ pc' = IF sc.v = "empty" THEN <<"p3", 0>> ELSE <<"done", 0>>
        [] PR = "sign_kp" -> ActPackage(<<"pkgS", 0>>, <<1, 2>>, [i \in sc.slots |-> <<"comm", i>>]) /\ pc' = <<"p3", 0>>
-       [] PR = "dkg_lens" ->
+       [] PR = "ss_double" -> SsStep(<<"ssB", 2>>, <<"ssA", 2>>, sc.nt >= 2) /\ pc' = <<"p3", 0>>
+       [] PR = "dkg_lens" /\ sc.zero ->
+            ActZeroR2(<<"r2z", 3>>, <<R2N[3], 2>>) /\ pc' = <<"p3", 0>>
+       [] PR = "dkg_lens" /\ ~sc.zero ->
             (IF sc.late
              THEN ActDkg3(<<"kpX", 2>>, <<"pkpX", 2>>, <<"r2s", 2>>, (3 :> <<"r1x", 3>>) @@ (5 :> <<"r1p", 5>>),
                           (3 :> <<R2N[3], 2>>) @@ (5 :> <<R2N[5], 2>>), FALSE, <<"none", 0>>, <<"none", 0>>)
@@ -107,8 +119,19 @@ P3 ==
   /\ UNCHANGED sc
   /\ CASE PR = "agg_maps" -> ActAggregate(<<"sig", 0>>, <<"pkgE", 0>>, << >>, <<"pkpL", 0>>, sc.mode) /\ Done
        [] PR = "sign_kp"  -> ActSign(<<"zX", 2>>, <<"pkgS", 0>>, <<"non", 2>>, <<"kpL", 2>>) /\ Done
+       [] PR = "ss_double" ->
+            ActTamperSs(<<"ssC", 2>>, <<"ssB", 2>>, IF sc.zero THEN "zero" ELSE "share", 0, 0)
+            /\ pc' = <<"p4", 0>>
+       [] PR = "dkg_lens" ->
+            ActDkg3(<<"kpX", 2>>, <<"pkpX", 2>>, <<"r2s", 2>>, (3 :> <<"r1x", 3>>) @@ (5 :> <<"r1p", 5>>),
+                    (3 :> <<"r2z", 3>>) @@ (5 :> <<R2N[5], 2>>), FALSE, <<"none", 0>>, <<"none", 0>>) /\ Done
 
-Next == Prefix \/ Choose \/ P1 \/ P2 \/ P3
+P4 ==
+  /\ pc[1] = "p4"
+  /\ UNCHANGED sc
+  /\ PR = "ss_double" /\ ActKpFromSs(<<"kpX", 2>>, <<"ssC", 2>>) /\ Done
+
+Next == Prefix \/ Choose \/ P1 \/ P2 \/ P3 \/ P4
 Spec == Init /\ [][Next]_vars
 
 \* every call returns a value or an error: `last.res` always has the field ok
